@@ -78,3 +78,11 @@ Example C03_nonvacuous :
   run (div_rem 250 [5; 7; 1; 9] [3; 0xffffffffffffffff; 2; 0])
     = Val [TL [1; 3; 0; 0]; TL [2; 0xffffffffffffffff; 0; 0]].
 Proof. repeat split; vm_compute; reflexivity. Qed.
+
+
+(* ---- the hypothesis is discharged: PfDiv.div_kernel_spec (property C14) proves DivKernelOK ---- *)
+From RV.Proofs Require PfC03Closed.
+Theorem C03_unconditional : forall c : call, wf c -> spec c (run c) = true.
+Proof. exact PfC03Closed.C03_all. Qed.
+Check C03_unconditional : forall c : call, wf c -> spec c (run c) = true.
+Print Assumptions C03_unconditional.
